@@ -11,6 +11,7 @@ from twisted.web.resource import (
 )
 
 from allmydata.interfaces import ExistingChildError
+from allmydata.mutable.common import NotWriteableError
 from allmydata.monitor import Monitor
 from allmydata.immutable.upload import FileHandle
 from allmydata.mutable.publish import MutableFileHandle
@@ -52,6 +53,10 @@ class ReplaceMeMixin:
         file_format = get_format(req, "CHK")
         mutable_type = get_mutable_type(file_format)
         if mutable_type is not None:
+            if self.parentnode.is_readonly():
+                # like dirnode.add_file: do not create (and upload) a new
+                # mutable file that could not be linked afterwards
+                return defer.fail(NotWriteableError())
             data = MutableFileHandle(req.content)
             keypair = get_keypair(req)
             d = client.create_mutable_file(data, version=mutable_type, unique_keypair=keypair)
@@ -94,6 +99,8 @@ class ReplaceMeMixin:
         file_format = get_format(req, "CHK")
         contents = req.fields["file"]
         if file_format in ("SDMF", "MDMF"):
+            if self.parentnode.is_readonly():
+                return defer.fail(NotWriteableError())
             mutable_type = get_mutable_type(file_format)
             uploadable = MutableFileHandle(contents.file)
             keypair = get_keypair(req)
